@@ -5,7 +5,7 @@ import ast
 import re
 
 from tiv import rex
-from tiv.astutil import (assigned_targets, body_walk, call_name, dotted, enclosing_stmt, norm, short, stores_in,
+from tiv.astutil import (guards, assigned_targets, body_walk, call_name, dotted, enclosing_stmt, norm, short, stores_in,
                          walk_local)
 from tiv.mutate import M
 from tiv.srcmodel import AnalysisError
@@ -241,9 +241,10 @@ def run(ck, m):
           "fields after the first matched one must be anchored with pattern.match(spec, pos=end); search() would skip junk between fields",
           stmt="_get_style_format_spec: subsequent fields anchored at end")
     ck.ob("R3", loops[0], len(c1) == 1 and c1[0].func.attr == "search" and norm(c1[0]) == "pattern.search(spec)", "first field located with pattern.search(spec)", stmt="_get_style_format_spec: first field search")
-    src = norm(gsf)
-    ck.ob("R3", gsf, "parent, invalid = (spec[:start], spec[end:])" in src and "if invalid:\n        raise StyleError" in src,
-          "whatever follows the last matched field must be rejected with StyleError", stmt="_get_style_format_spec: remainder rejected")
+    from tiv.sem import expand
+    rej = [r for r in body_walk(gsf) if isinstance(r, ast.Raise) and r.exc is not None and "StyleError" in norm(r.exc)
+           and any(b_ and norm(expand(gsf, t)) == "spec[end:]" for t, b_ in guards(r)) and r.lineno > loops[1].end_lineno]
+    ck.ob("R3", gsf, bool(rej), "whatever follows the last matched field (`spec[end:]`) must be rejected with StyleError", stmt="_get_style_format_spec: remainder rejected")
     for b in loops[1].body:
         pass
     ends = [st for t, st in stores_in(loops[1]) if isinstance(t, ast.Name) and t.id == "end"]
